@@ -174,6 +174,9 @@ class NP(_Stub):
             start, stop, step = a
         if not any(is_sym(v) for v in (start, stop, step)):
             return CArr(_np.arange(start, stop, step).astype(object))
+        from fractions import Fraction as _Fr
+        if isinstance(start, (float, _Fr)) and start == int(start):
+            start = int(start)          # np.arange(0., n): the integer-valued grid (as floats)
         if not (isinstance(step, (int, SI)) and isinstance(start, (int, SI)) and isinstance(stop, (int, SI))):
             raise OutOfReach("np.arange with non-integer arguments")
         cur().safety("pre.arange", step > 0, note="arange modelled for positive integer steps")
